@@ -920,16 +920,18 @@ class Parser:
         self._tokenizer._with_macro = False
         return ast.With(items=[a], body=[ast.Pass(**locs)], **locs)
 
+    # A macro start switches the tokenizer to collecting raw text for the tokens that follow.  When the rule is
+    # replayed over tokens that are cached already (second pass after an error), there is nothing to collect.
     def handle_func_macro_start(self, a: ast.expr) -> ast.expr:
-        self._tokenizer._call_macro = True
+        self._tokenizer._call_macro = self._tokenizer.at_frontier()
         return a
 
     def handle_with_macro_start(self, a: ast.withitem) -> ast.withitem:
-        self._tokenizer._with_macro = True
+        self._tokenizer._with_macro = self._tokenizer.at_frontier()
         return a
 
     def handle_proc_macro_start(self, a: TokenInfo) -> TokenInfo:
-        self._tokenizer._proc_macro = True
+        self._tokenizer._proc_macro = self._tokenizer.at_frontier()
         return a
 
     def proc_macro_arg(self, a: TokenInfo | None, **locs: int) -> ast.Constant:
